@@ -2,6 +2,8 @@
 LimitedHistoryLogObserver vs the Lean model, and the property oracle on the implementation's behaviour."""
 import itertools
 
+from constantly import NamedConstant, Names
+
 from twisted.logger import (
     FilteringLogObserver,
     LimitedHistoryLogObserver,
@@ -20,16 +22,32 @@ RULE = ("pub: 0..6 recording observers with per-call scripts: a command list ove
         "publisher with a failure report; constructor list + add/remove/emit histories; plus ALL configurations of <=3 "
         "observers over 12 first-call behaviours (8 for n=3 in the quick tier; thorough adds 4 observers over 6) incl. "
         "publish, publish-then-remove-self, remove-self-then-publish, publish-and-raise, publish-then-add/remove-next; "
+        "in ~55% of the random publisher cases some or all observers are handed to the API as BOUND METHODS (a new, equal "
+        "method object at every addObserver/removeObserver/constructor use), in ~55% the raising observers raise one of 19 "
+        "other Exception classes (KeyError, StopIteration, MemoryError, RecursionError, AssertionError, OSError, Warning, "
+        "CancelledError, one whose str/repr raise, one equal to everything, multiple inheritance, …); ~8% of all cases are "
+        "LONG histories: 9..40 events with one or two observers that raise at every call for ever (script default `~x:`); "
         "filter: set/clear/query/event histories over "
-        "namespaces built from a small segment alphabet (prefix near-misses, empty segments, leading/trailing dots, "
-        "non-ASCII), all 5 levels, missing/None level and namespace, predicate lists mixing the level predicate with "
-        "yes/no/maybe/invalid; hist: sizes None,0,1,2,3,5,-1 with observe/replay strings, the observer replayed to optionally "
+        "namespaces built from a segment alphabet (prefix near-misses, empty segments, leading/trailing dots, "
+        "non-ASCII, upper/lower-case twins, white space, trailing/embedded newlines, regular-expression metacharacters; "
+        "15% of the cases use namespaces 9..19 segments deep, configured at depths near the end), all 5 levels and 9 "
+        "things that are not levels (None, int, str, the LogLevel class, constants of other containers incl. ones named like "
+        "a level), missing/None level and namespace, predicate lists mixing the level predicate with "
+        "yes/no/maybe/invalid, handed to FilteringLogObserver as list / tuple / one-shot iterator / generator; "
+        "hist: sizes None,0,1,2,3,5,-1 with strings over observe / replay / observe the newest event AGAIN (same object or "
+        "an equal copy) / replayTo(self), the observer replayed to optionally "
         "logging 0..3 events back into the history observer at its i-th call (re-entrant); "
         "distinct = (op, shape signature: #observers, raise nesting depth, mutation kind, re-entrant publish nesting depth, "
-        "registration change after a nested publish | set of step outcomes | size class)")
+        "registration change after a nested publish, how observers are handed over, exception class, long history | set of "
+        "step outcomes, predicate container, odd/deep namespaces | size class, repeated events / self replay)")
 ASSUMES = [
-    "observers raise Exception subclasses (BaseException propagates by design: `except Exception`)",
-    "an observer object is registered at most once (addObserver guarantees it; the constructor is given distinct observers)",
+    "observers raise Exception subclasses — ANY of them (the model's `raises` flag abstracts the class; the tie runs 20 "
+    "classes) — BaseException propagates by design: `except Exception`",
+    "observers are compared the way the publisher's API compares them (`in` / list.remove: identity or equality): the bound "
+    "methods `obj.m` of one object are ONE observer; an observer is registered at most once (addObserver guarantees it; the "
+    "constructor is given distinct observers); the oracle judges 'registered' from the history of constructor / addObserver / "
+    "removeObserver calls, not from the publisher's private list",
+    "an observer that raises at every call for ever (the long histories) does not also publish at every call",
     "observer code re-enters only the publisher under test — through addObserver/removeObserver and by calling it with a "
     "NEW event (it holds no reference to the private error publishers; it does not publish the event it is handling "
     "again); it does not mutate the event dict",
@@ -40,7 +58,9 @@ ASSUMES = [
     "events handed to the level predicate carry LogLevel constants (a foreign NamedConstant makes `<` raise TypeError)",
     "an event 'has a namespace' when log_namespace is a non-empty str: the documented behaviour (class docstring, "
     "test_filtering) is that events without a level or namespace are dropped",
-    "replayTo's target observer returns normally (it may log to the same history observer meanwhile)",
+    "replayTo's target observer returns normally (it may log to the same history observer meanwhile, and it may BE the "
+    "history observer); an event logged twice (the same dict or an equal one) is two events",
+    "FilteringLogObserver is given its predicates as any Iterable (the model's predicate list is the constructor's copy)",
 ]
 TRUSTED = ["CPython list iterator / list.remove / collections.deque(maxlen) / str.split / str.join semantics as transcribed"]
 MANIFEST = {
@@ -52,7 +72,10 @@ MANIFEST = {
             "every other observer of that publisher and never to the raiser, the error recursion is bounded by the observer "
             "count; logLevelForNamespace equals the level of the longest configured dotted prefix (else the default) for all "
             "configurations and namespaces, FilteringLogObserver passes iff level >= that; a LimitedHistoryLogObserver replays "
-            "exactly the last N events in order for every event stream, also when the observer replayed to logs to it meanwhile. Model tied to twisted.logger by differential runs.",
+            "exactly the last N events in order for every event stream (repeated events included), also when the observer replayed to logs to it meanwhile "
+            "or is the history observer itself (history_replay_to_self*). Model tied to twisted.logger by differential runs, which also vary what the "
+            "model abstracts: how observers are handed over (objects / bound methods), the Exception class raised, the predicate container "
+            "(list / one-shot iterator), what is passed as a non-level.",
     "note": "trusts Lean kernel, the hand-written model of _observer.py/_filter.py/_buffer.py (differentially tied), "
             "CPython list/deque/str semantics; re-entrant publishing is modelled with a nesting bound (theorems hold for "
             "every bound; a run that does not hit it is proved independent of it)",
@@ -97,7 +120,9 @@ def _ns(t):
 def model_line(c):
     op = c["op"]
     if op in ("pub",):
-        behs = ";".join((",".join(_act(a) for a in sc) or "-") for sc in c["behs"]) or "_"
+        dflt = c.get("dflt") or []
+        behs = ";".join((",".join(_act(a) for a in sc) or "-") + ("~x:" if i < len(dflt) and dflt[i] else "")
+                        for i, sc in enumerate(c["behs"])) or "_"
         return f"{MODEL_PUB} {_ids(c['init']) or '-'} {behs} {','.join(c['ops']) or '-'}"
     if op == "filter":
         steps = []
@@ -124,13 +149,73 @@ class Boom(Exception):
         self.obs, self.token = obs, token
 
 
+class Grumpy(Exception):
+    """an exception that cannot be rendered"""
+
+    def __str__(self):
+        raise RuntimeError("no str")
+
+    __repr__ = __str__
+
+
+class Chameleon(Exception):
+    """an exception equal to everything"""
+
+    def __eq__(self, other):
+        return True
+
+    def __hash__(self):
+        return 0
+
+
+class LegacyError(KeyError, RuntimeError):
+    pass
+
+
+def _cancelled():
+    from twisted.internet.defer import CancelledError
+    return CancelledError()
+
+
+# what a raising observer raises: Exception subclasses of every flavour (the statement: "even when some observers
+# raise"); index 0 is the plain application exception
+EXC = [
+    None, KeyError, StopIteration, MemoryError, RecursionError, AssertionError, OSError, SystemError,
+    StopAsyncIteration, Grumpy, Chameleon, DeprecationWarning, ZeroDivisionError, UnicodeError, LegacyError,
+    NotImplementedError, _cancelled, ConnectionResetError, TimeoutError, BufferError,
+]
+
+
+def _make_exc(kind, obs, token):
+    cls = EXC[kind % len(EXC)]
+    e = Boom(obs, token) if cls is None else cls()
+    e._c57 = (obs, token)
+    return e
+
+
+def _oid(o):
+    """the id of a registered observer: a Rec, or a bound method of one"""
+    return o.i if isinstance(o, Rec) else o.__self__.i
+
+
 class World:
-    def __init__(self, scripts):
+    def __init__(self, scripts, dflt=(), kinds=(), exc=()):
         self.trace = []
         self.obs = [Rec(i, [_norm(a) for a in sc], self) for i, sc in enumerate(scripts)]
+        for i, o in enumerate(self.obs):
+            o.dflt = bool(dflt[i]) if i < len(dflt) else False
+            o.exc = exc[i] if i < len(exc) else 0
+        self.kinds = list(kinds)
         self.pub = None
         self.nsub = 0
         self.lt = False
+
+    def handle(self, i):
+        """what the application / an observer hands to the publisher API for observer i: the callable object itself,
+        or (kind 1) its bound method `observe` — a NEW method object at every use, equal to the earlier ones"""
+        if i < len(self.kinds) and self.kinds[i] == 1:
+            return self.obs[i].observe
+        return self.obs[i]
 
     def event(self, key, k):
         # with `lt` the events carry a "log_trace" list: LogPublisher.__call__ then takes its tracing branch
@@ -143,8 +228,13 @@ class World:
             return f"s{event['s']}"
         f = event.get("log_failure")
         b = event.get("observer")
-        if f is not None and isinstance(b, Rec) and isinstance(f.value, Boom) and f.value.obs == b.i:
-            return f"r{b.i}({f.value.token})"
+        try:
+            bi = _oid(b)
+        except AttributeError:
+            return "?"
+        mark = getattr(f.value, "_c57", None) if f is not None else None
+        if mark is not None and mark[0] == bi:
+            return f"r{bi}({mark[1]})"
         return "?"
 
 
@@ -158,7 +248,7 @@ class Rec:
         w = self.world
         tok = w.token(event)
         w.trace.append(f"{self.i}>{tok}")
-        raises, cmds = self.script[self.n] if self.n < len(self.script) else (False, [])
+        raises, cmds = self.script[self.n] if self.n < len(self.script) else (self.dflt, [])
         self.n += 1
         for cmd in cmds:
             if cmd == "p":
@@ -170,21 +260,24 @@ class Rec:
                 w.pub(w.event("s", j))
                 w.trace.append(f"]s{j}")
             elif cmd[0] == "r":
-                w.pub.removeObserver(w.obs[int(cmd[1:])])
+                w.pub.removeObserver(w.handle(int(cmd[1:])))
             else:
-                w.pub.addObserver(w.obs[int(cmd[1:])])
+                w.pub.addObserver(w.handle(int(cmd[1:])))
         if raises:
-            raise Boom(self.i, tok)
+            raise _make_exc(self.exc, self.i, tok)
+
+    def observe(self, event):
+        return self(event)
 
 
 def _registered(w):
-    return [o.i for o in w.pub._observers]
+    return [_oid(o) for o in w.pub._observers]
 
 
 def run_pub(c):
-    w = World(c["behs"])
+    w = World(c["behs"], c.get("dflt") or (), c.get("kinds") or (), c.get("exc") or ())
     w.lt = bool(c.get("lt"))
-    w.pub = LogPublisher(*[w.obs[i] for i in c["init"]])
+    w.pub = LogPublisher(*[w.handle(i) for i in c["init"]])
     k = 0
     for op in c["ops"]:
         if op == "e":
@@ -192,9 +285,9 @@ def run_pub(c):
             w.pub(w.event("n", k))
             k += 1
         elif op[0] == "a":
-            w.pub.addObserver(w.obs[int(op[1:])])
+            w.pub.addObserver(w.handle(int(op[1:])))
         else:
-            w.pub.removeObserver(w.obs[int(op[1:])])
+            w.pub.removeObserver(w.handle(int(op[1:])))
     return ";".join(w.trace) + "|main=" + _ids(_registered(w))
 
 
@@ -203,6 +296,21 @@ def compare(c, impl_out, model_out):
         body, main = impl_out.rsplit("|main=", 1)
         impl_out = ";".join(e for e in body.split(";") if e[:1] not in ("[", "]")) + "|main=" + main
     return impl_out == model_out
+
+
+class OtherLevels(Names):
+    """constants of a foreign container, named like log levels"""
+    info = NamedConstant()
+    critical = NamedConstant()
+
+
+def _level_arg(k):
+    """the `level` argument of setLogLevelForNamespace for code k: 0..4 the LogLevel constants, >= 5 things that
+    are not log levels (strings, None, ints, NamedConstants of other containers — also ones named like a level)"""
+    if k < 5:
+        return LV[k]
+    return {5: None, 6: 1, 8: PredicateResult.maybe, 10: OtherLevels.info, 11: "info", 12: OtherLevels.critical,
+            13: LogLevel}.get(k, "level%d" % k)
 
 
 class ConstPredicate:
@@ -218,7 +326,10 @@ def run_filter(c):
     consts = {"y": PredicateResult.yes, "n": PredicateResult.no, "m": PredicateResult.maybe, "i": "bogus"}
     preds = [pred if p == "L" else ConstPredicate(consts[p]) for p in c["preds"]]
     pos, neg = [], []
-    obs = FilteringLogObserver(pos.append, preds, neg.append)
+    # the predicates are handed over as any Iterable: a list, a tuple, or a one-shot iterator / generator
+    pk = c.get("pk", 0)
+    handed = preds if pk == 0 else tuple(preds) if pk == 1 else iter(preds) if pk == 2 else (p for p in preds)
+    obs = FilteringLogObserver(pos.append, handed, neg.append)
     style = c.get("none_style", 0)
     out = []
     for s in c["steps"]:
@@ -227,7 +338,7 @@ def run_filter(c):
             out.append("ok")
         elif s[0] == "s":
             try:
-                pred.setLogLevelForNamespace(s[1], LV[s[2]] if s[2] < 5 else "level%d" % s[2])
+                pred.setLogLevelForNamespace(s[1], _level_arg(s[2]))
                 out.append("ok")
             except Exception as e:
                 out.append("!" + type(e).__name__)
@@ -268,10 +379,22 @@ def run_hist(c):
         return "!raised ValueError"
     feed = c.get("feed") or []
     out, k = [], [0]
+    last = [None]           # the newest event object (created by the application or by the target observer)
+
+    def fresh():
+        last[0] = {"n": k[0]}
+        k[0] += 1
+        return last[0]
+
     for ch in c["steps"]:
-        if ch == "e":
-            h({"n": k[0]})
-            k[0] += 1
+        if ch == "e" or (ch in "dc" and last[0] is None):
+            h(fresh())
+        elif ch == "d":
+            h(last[0])                  # the same event object once more
+        elif ch == "c":
+            h(dict(last[0]))            # an equal event
+        elif ch == "s":
+            h.replayTo(h)               # the history observer replayed to itself
         else:
             got = []
 
@@ -280,8 +403,7 @@ def run_hist(c):
                 got.append(ev)
                 i = len(got) - 1
                 for _ in range(feed[i] if i < len(feed) else 0):
-                    h({"n": k[0]})
-                    k[0] += 1
+                    h(fresh())
 
             try:
                 h.replayTo(target)
@@ -320,38 +442,70 @@ def _oracle_pub(c, out):
         return {"key": "publisher-raised", "detail": f"{model_line(c)}: {out}"}
     body, _ = out.rsplit("|main=", 1)
     scripts = [[_norm(a) for a in sc] for sc in c["behs"]]
+    dflt = c.get("dflt") or []
     ncalls = [0] * len(scripts)
     pubs, dels, stack, ntop = {}, [], [], 0
     entries = body.split(";") if body else []
+    # "registered" is judged from the history of the publisher's API — constructor arguments, addObserver /
+    # removeObserver calls of the application and of the observers, in the order they happened — not from the
+    # publisher's private list (the ids in the @ / [ markers are only what the tie compares)
+    reg = list(c["init"])
+    top_ops = list(c["ops"])
+    pending = []            # per open nested publish: the commands its caller still runs once it returns
+    opening = [False]       # the last command run was `p`: the next entry must open that nested publish
+
+    def run_cmds(cmds):
+        for i, cmd in enumerate(cmds):
+            if cmd == "p":
+                pending.append(cmds[i + 1:])
+                opening[0] = True
+                return
+            k = int(cmd[1:])
+            if cmd[0] == "a":
+                if k not in reg:
+                    reg.append(k)
+            elif k in reg:
+                reg.remove(k)
+
     for idx, ent in enumerate(entries):
         if ent.startswith("@"):
-            if len(stack) > 1:
+            if len(stack) > 1 or opening[0] or pending:
                 return {"key": "markers", "detail": out}
             if stack:
                 stack[0].end = idx
-            P = _Publish(str(ntop), [int(x) for x in ent[1:].split(",") if x], idx, None)
+            while top_ops and top_ops[0] != "e":
+                run_cmds([top_ops.pop(0)])
+            if not top_ops:
+                return {"key": "segments", "detail": out}
+            top_ops.pop(0)
+            P = _Publish(str(ntop), list(reg), idx, None)
             ntop += 1
             stack = [P]
             pubs[P.tok] = P
         elif ent.startswith("["):
             tok, ids = ent[1:].split("@", 1)
-            if not stack or tok in pubs:
+            if not stack or tok in pubs or not opening[0]:
                 return {"key": "markers", "detail": out}
-            P = _Publish(tok, [int(x) for x in ids.split(",") if x], idx, stack[-1])
+            opening[0] = False
+            P = _Publish(tok, list(reg), idx, stack[-1])
             stack.append(P)
             pubs[tok] = P
         elif ent.startswith("]"):
-            if len(stack) < 2 or stack[-1].tok != ent[1:]:
+            if len(stack) < 2 or stack[-1].tok != ent[1:] or opening[0] or not pending:
                 return {"key": "markers", "detail": out}
             stack.pop().end = idx
+            run_cmds(pending.pop())
         else:
             o, tok = ent.split(">", 1)
             o = int(o)
-            act = scripts[o][ncalls[o]] if ncalls[o] < len(scripts[o]) else [False, []]
+            act = scripts[o][ncalls[o]] if ncalls[o] < len(scripts[o]) else [bool(dflt[o]) if o < len(dflt) else False, []]
             ncalls[o] += 1
             if not stack:
                 return {"key": "delivery-without-emit", "detail": out}
+            if opening[0]:
+                return {"key": "markers", "detail": out}
             dels.append((o, tok, act, idx))
+            run_cmds(act[1])
             for P in stack:
                 for cmd in act[1]:
                     if cmd[0] == "r":
@@ -360,7 +514,7 @@ def _oracle_pub(c, out):
                             P.removed_by_other.add(int(cmd[1:]))
                     elif cmd[0] == "a":
                         P.added.add(int(cmd[1:]))
-    if len(stack) > 1:
+    if len(stack) > 1 or opening[0] or pending:
         return {"key": "markers", "detail": out}
     for P in pubs.values():
         if P.end is None:
@@ -479,10 +633,15 @@ def _oracle_hist(c, out):
         return {"key": "hist-raised", "detail": f"{model_line(c)}: {out}"}
     feed = c.get("feed") or []
     exp, k, allev = [], 0, []
+    window = lambda: list(allev) if c["size"] is None else (allev[-c["size"]:] if c["size"] > 0 else [])
     for ch in c["steps"]:
-        if ch == "e":
+        if ch == "e" or (ch in "dc" and k == 0):
             allev.append(k)
             k += 1
+        elif ch in "dc":
+            allev.append(k - 1)         # logged again: one more event (the same object, or an equal one)
+        elif ch == "s":
+            allev.extend(window())      # the history observer is itself handed the last N events, which it observes
         else:
             last = list(allev) if c["size"] is None else (allev[-c["size"]:] if c["size"] > 0 else [])
             exp.append("[" + _ids(last) + "]")
@@ -535,6 +694,19 @@ def corpus():
         {"op": "pub", "init": [0, 1, 2], "behs": [[[True, ["p"]]], [[True, ["p"]]], [[True, ["p", "r2"]]]], "ops": ["e"]},
         # events carrying a log_trace list (the tracing branch of __call__), with a raise and a nested publish
         {"op": "pub", "init": [0, 1, 2], "behs": [[[True, ["p", "r0"]]], [], [[True, []]]], "ops": ["e", "e"], "lt": 1},
+        # observers handed over as bound methods (a new, equal method object at every call of the API): added twice,
+        # removed, re-registering themselves while being called and raising (witness of the defect fixed in
+        # _errorLoggerForObserver: the raiser was told about its own failure)
+        {"op": "pub", "init": [0], "behs": [[]], "ops": ["a0", "e", "r0", "e"], "kinds": [1]},
+        {"op": "pub", "init": [0], "behs": [[[True, ["r0", "a0"]]]], "ops": ["e"], "kinds": [1]},
+        {"op": "pub", "init": [0, 1], "behs": [[[True, ["r0", "a0"]]], [[False, ["a1", "r0"]]]], "ops": ["e", "a0", "a1", "e"], "kinds": [1, 1]},
+        # what is raised is any Exception: KeyError, StopIteration, MemoryError, RecursionError, one that cannot be
+        # rendered, one equal to everything, …
+        {"op": "pub", "init": [0, 1, 2], "behs": [[[True, []]], [[True, []], [True, []]], []], "ops": ["e", "e"], "exc": [3, 9, 0]},
+        {"op": "pub", "init": [0, 1, 2], "behs": [[[True, []]], [[True, []], [True, []]], [[True, ["p"]]]], "ops": ["e"], "exc": [4, 10, 2]},
+        # an observer that raises at every call still gets every event (12 events, then 40)
+        {"op": "pub", "init": [0, 1], "behs": [[], []], "ops": ["e"] * 12, "dflt": [1, 0]},
+        {"op": "pub", "init": [0, 1, 2], "behs": [[], [], []], "ops": ["e"] * 40, "dflt": [0, 1, 1], "kinds": [0, 1, 0], "exc": [0, 1, 3]},
         # (e) two nested publishes by one observer with a registration change in between and after
         {"op": "pub", "init": [0, 1, 2], "behs": [[[False, ["p", "r1", "p", "a1", "r0"]]], [], []], "ops": ["e", "e"]},
         {"op": "filter", "default": 1, "preds": ["L"], "steps": [["s", "twext.web2", 0], ["s", "twext.web2.dav", 2],
@@ -544,6 +716,18 @@ def corpus():
             ["q", "a..b.c"], ["q", "a.."], ["q", "a..c"], ["q", ".a.b"], ["q", "."], ["q", "a"], ["s", "", 2], ["q", ".x"], ["s", "a", 9]]},
         {"op": "filter", "default": 1, "preds": ["m", "L", "y"], "steps": [["e", 0, "a"], ["e", 1, "a"]]},
         {"op": "filter", "default": 1, "preds": ["i"], "steps": [["e", 0, "a"]], "none_style": 1},
+        # namespaces are compared as they are: case, white space, a trailing newline, regular-expression characters
+        {"op": "filter", "default": 1, "preds": ["L"], "steps": [["s", "Twisted.Web", 0], ["q", "twisted.web.x"], ["q", "Twisted.Web.x"],
+            ["s", "a", 3], ["q", "a\n"], ["q", "a\n.b"], ["q", " a"], ["q", "a "], ["s", "a*", 4], ["q", "aa.b"], ["q", "a*.b"],
+            ["s", "a.b", 2], ["q", "axb.c"], ["e", 1, "A.b"], ["e", 1, "a.b\n"]]},
+        # a long namespace configured at depth 10: the most specific prefix is found however deep it is
+        {"op": "filter", "default": 1, "preds": ["L"], "steps": [["s", "a.b.a.b.a.b.a.b.a.b", 4], ["s", "a.b.a", 0],
+            ["q", "a.b.a.b.a.b.a.b.a.b.x"], ["q", "a.b.a.b.a.b.a.b.a.b.x.y.z"], ["q", "a.b.a.b.a.b.a.b.a"], ["e", 3, "a.b.a.b.a.b.a.b.a.b.c"]]},
+        # the predicates are handed over as a one-shot iterator: every event is judged by all of them
+        {"op": "filter", "default": 2, "preds": ["m", "L"], "steps": [["e", 0, "a"], ["e", 0, "a"], ["e", 4, "a"], ["e", 1, "a"]], "pk": 2},
+        {"op": "filter", "default": 2, "preds": ["L"], "steps": [["e", 0, "a"], ["e", 0, "a"]], "pk": 3},
+        # things that are not log levels are refused, and leave the configuration alone
+        {"op": "filter", "default": 1, "preds": ["L"], "steps": [["s", "a", k] for k in (5, 6, 8, 10, 11, 12, 13)] + [["e", 1, "a.b"], ["q", "a"]]},
         {"op": "hist", "size": 5, "steps": "eeeeeeeeeer"},
         {"op": "hist", "size": 0, "steps": "eer"},
         {"op": "hist", "size": None, "steps": "reerer"},
@@ -554,6 +738,12 @@ def corpus():
         {"op": "hist", "size": 5, "steps": "eerer", "feed": [1, 1, 1, 1, 1, 1]},
         {"op": "hist", "size": 1, "steps": "err", "feed": [3]},
         {"op": "hist", "size": 0, "steps": "er", "feed": [1]},
+        # repeated events (the same object / an equal one logged again) count; the history observer replayed to itself
+        {"op": "hist", "size": 5, "steps": "eddecr"},
+        {"op": "hist", "size": 2, "steps": "edcdr"},
+        {"op": "hist", "size": None, "steps": "eesr"},
+        {"op": "hist", "size": 3, "steps": "eesresr"},
+        {"op": "hist", "size": 3, "steps": "eeeesr"},
         # minimised witness of the defect fixed in LimitedHistoryLogObserver.replayTo (deque mutated during iteration:
         # RuntimeError even though the one buffered event had been handed over)
         {"op": "hist", "size": 3, "steps": "er", "feed": [1]},
@@ -586,11 +776,37 @@ def _small_exhaustive(tier="quick"):
             yield {"op": "pub", "init": list(range(n)), "behs": behs, "ops": ["e", "e"]}
 
 
-SEGS = ["a", "b", "ab", "", "é", "x1", "a", "b"]
+PLAIN = ["a", "b", "ab", "", "é", "x1", "a", "b"]
+ODD = ["A", "B", "Ab", "É", "a\n", "\n", " a", "a ", "a*", "[ab]", "ß", "a\\", "a$", "^a", "a|b", "(a)", "a\t", "\u0130"]
+SEGS = PLAIN * 7 + ODD
+# things that are not log levels (see _level_arg)
+BAD_LEVELS = [5, 6, 7, 8, 9, 10, 11, 12, 13]
 
 
-def _namespace(rng):
-    return ".".join(rng.choice(SEGS) for _ in range(rng.choice([1, 1, 2, 2, 3, 3, 4, 5])))
+def _namespace(rng, depths=(1, 1, 2, 2, 3, 3, 4, 5)):
+    return ".".join(rng.choice(SEGS) for _ in range(rng.choice(depths)))
+
+
+def _variant(rng, ns):
+    """a near miss of ns that is a different string: other case, padded with white space / a newline, a regular-
+    expression reading of it"""
+    r = rng.randrange(8)
+    if r == 0:
+        return ns.swapcase()
+    if r == 1:
+        return ns.upper()
+    if r == 2:
+        return ns.lower()
+    if r == 3:
+        return ns + "\n"
+    if r == 4:
+        return rng.choice([" ", "\t", "\n"]) + ns
+    if r == 5:
+        return ns + " "
+    if r == 6:
+        i = rng.randrange(len(ns) + 1)
+        return ns[:i] + rng.choice(["\n", ".\n", "\n."]) + ns[i:]
+    return ns.replace(".", rng.choice(["x", "-", ".."]), 1)
 
 
 def _gen_pub(rng):
@@ -646,14 +862,66 @@ def _gen_pub(rng):
             ops.append(f"a{rng.randrange(n)}")
         else:
             ops.append(f"r{rng.randrange(n)}")
-    return {"op": "pub", "init": init, "behs": behs, "ops": ops, "lt": int(rng.random() < 0.25)}
+    c = {"op": "pub", "init": init, "behs": behs, "ops": ops, "lt": int(rng.random() < 0.25)}
+    return _dress(rng, c)
+
+
+def _dress(rng, c):
+    """how the observers are handed to the publisher (callable objects / bound methods, a new method object at every
+    addObserver / removeObserver call) and what the raising ones raise (Exception subclasses of every flavour)"""
+    n = len(c["behs"])
+    r = rng.random()
+    if r < 0.3:
+        c["kinds"] = [1] * n
+    elif r < 0.55:
+        c["kinds"] = [rng.randrange(2) for _ in range(n)]
+    r = rng.random()
+    if r < 0.35:
+        c["exc"] = [rng.randrange(len(EXC)) for _ in range(n)]
+    elif r < 0.55:
+        c["exc"] = [rng.randrange(1, len(EXC))] * n
+    return c
+
+
+def _gen_pub_long(rng):
+    """long histories: one or two observers raise at EVERY call (for ever: `dflt`), 9..40 events"""
+    n = rng.choice([1, 2, 2, 3, 3, 4])
+    behs = []
+    for i in range(n):
+        sc = []
+        for _ in range(rng.choice([0, 0, 1, 2, 3])):
+            r = rng.random()
+            cmds = [f"r{rng.randrange(n)}"] if r < 0.15 else [f"a{rng.randrange(n)}"] if r < 0.3 else []
+            sc.append([rng.random() < 0.4, cmds])
+        behs.append(sc)
+    dflt = [0] * n
+    for i in rng.sample(range(n), rng.choice([1, 1, 2]) if n > 1 else 1):
+        dflt[i] = 1
+    m = rng.choice([9, 10, 12, 14, 16, 16, 20, 33, 40] if n <= 3 else [9, 10, 12, 14])
+    ops = []
+    for _ in range(m):
+        ops.append("e")
+        r = rng.random()
+        if r < 0.06:
+            ops.append(f"r{rng.randrange(n)}")
+        elif r < 0.15:
+            ops.append(f"a{rng.randrange(n)}")
+    init = list(range(n))
+    rng.shuffle(init)
+    c = {"op": "pub", "init": init, "behs": behs, "ops": ops, "lt": int(rng.random() < 0.2), "dflt": dflt}
+    return _dress(rng, c)
 
 
 def _gen_filter(rng):
     pool = [_namespace(rng) for _ in range(3)]
+    deep = rng.random() < 0.2
     def near(ns):
         parts = ns.split(".")
         r = rng.random()
+        if r < 0.2 and ns:
+            return _variant(rng, ns)
+        if deep and r < 0.5:
+            return ".".join(parts[: rng.randint(max(1, len(parts) - 4), len(parts))])
         if r < 0.45:
             return ".".join(parts[: rng.randint(1, len(parts))])
         if r < 0.6:
@@ -663,27 +931,49 @@ def _gen_filter(rng):
         if r < 0.8:
             return "." + ns
         return _namespace(rng)
+    if deep:
+        # long namespaces (9..14 segments) configured at every depth
+        # that share a long prefix
+        p0 = _namespace(rng, (9, 10, 11, 12, 14))
+        pool = [p0, p0 + "." + _namespace(rng), p0.rsplit(".", 1)[0] + "." + _namespace(rng, (1, 2, 3))]
     steps = []
+    configured = []
+    twins = rng.random() < 0.3
+
+    def twin(ns):
+        """in `twins` cases: a look-alike of a namespace that IS configured (other case, white space or a newline
+        appended / prepended / inserted, a `.` replaced), or something below such a look-alike"""
+        if twins and configured and rng.random() < 0.6:
+            v = _variant(rng, rng.choice(configured))
+            return v + rng.choice(["", "", "." + rng.choice(PLAIN[:3])])
+        return ns
+
     for _ in range(rng.choice([2, 4, 6, 9, 12])):
         r = rng.random()
         ns = rng.choice(pool)
         if r < 0.35:
-            steps.append(["s", rng.choice([near(ns), near(ns), ""]), rng.choice([0, 1, 2, 3, 4, 0, 4, 7])])
+            k = rng.choice([near(ns), near(ns), ""])
+            lvl = rng.choice([0, 1, 2, 3, 4, 0, 4, rng.choice(BAD_LEVELS)])
+            steps.append(["s", k, lvl])
+            if k and lvl < 5:
+                configured.append(k)
         elif r < 0.4:
             steps.append(["c"])
+            del configured[:]
         elif r < 0.6:
-            steps.append(["q", rng.choice([ns, near(ns), ""])])
+            steps.append(["q", twin(rng.choice([ns, near(ns), ""]))])
         else:
-            steps.append(["e", rng.choice([0, 1, 2, 3, 4, 0, 2, 4, None]), rng.choice([ns, ns, ns, near(ns), "", None])])
+            steps.append(["e", rng.choice([0, 1, 2, 3, 4, 0, 2, 4, None]), twin(rng.choice([ns, ns, ns, near(ns), "", None]))])
     preds = rng.choice([["L"]] * 6 + [[], ["m", "L"], ["L", "n"], ["L", "y"], ["y", "L"], ["n", "L"], ["L", "i"], ["i", "L"],
                                        ["m", "m", "L", "m"]])
     return {"op": "filter", "default": rng.randrange(5), "preds": preds, "steps": steps, "none_style": rng.randrange(2),
-            "lt": int(rng.random() < 0.25)}
+            "lt": int(rng.random() < 0.25), "pk": rng.choice([0, 0, 1, 2, 2, 3])}
 
 
 def _gen_hist(rng):
     size = rng.choice([None, 0, 1, 2, 3, 5, -1, 2, 3])
-    steps = "".join(rng.choice("eeer") for _ in range(rng.choice([0, 1, 3, 6, 9, 14]))) + rng.choice(["", "r"])
+    alphabet = rng.choice(["eeer", "eeer", "eedcr", "eeersr", "edcsr"])
+    steps = "".join(rng.choice(alphabet) for _ in range(rng.choice([0, 1, 3, 6, 9, 14]))) + rng.choice(["", "r"])
     c = {"op": "hist", "size": size, "steps": steps}
     if rng.random() < 0.4:
         c["feed"] = [rng.choice([0, 0, 1, 1, 2, 3]) for _ in range(rng.choice([1, 1, 2, 3, 6]))]
@@ -695,8 +985,10 @@ def generate(rng, tier):
     n = 2200 if tier == "quick" else 60000
     for _ in range(n):
         r = rng.random()
-        if r < 0.5:
+        if r < 0.42:
             yield _gen_pub(rng)
+        elif r < 0.5:
+            yield _gen_pub_long(rng)
         elif r < 0.9:
             yield _gen_filter(rng)
         else:
@@ -734,12 +1026,20 @@ def shrink(c):
                         yield dict(c, behs=behs[:i] + [sc[:j] + [simpler] + sc[j + 1:]] + behs[i + 1:])
         for i in range(len(c["init"])):
             yield dict(c, init=c["init"][:i] + c["init"][i + 1:])
+        for f in ("kinds", "exc", "dflt"):
+            if any(c.get(f) or []):
+                yield {k: v for k, v in c.items() if k != f}
+                for i, v in enumerate(c[f]):
+                    if v:
+                        yield dict(c, **{f: c[f][:i] + [0] + c[f][i + 1:]})
     elif c["op"] == "filter":
         st = c["steps"]
         for i in range(len(st)):
             yield dict(c, steps=st[:i] + st[i + 1:])
         for i in range(len(c["preds"])):
             yield dict(c, preds=c["preds"][:i] + c["preds"][i + 1:])
+        if c.get("pk"):
+            yield dict(c, pk=0)
     else:
         s = c["steps"]
         for i in range(len(s)):
@@ -763,12 +1063,25 @@ def tag(c, out):
         # a registration change that follows a re-entrant publish inside one observer call / anywhere in the case
         after = any("p" in _norm(a)[1] and any(cm != "p" for cm in _norm(a)[1][_norm(a)[1].index("p"):])
                     for sc in c["behs"] for a in sc)
+        kinds = c.get("kinds") or []
+        handed = "meth" if kinds and all(kinds) else "mixed" if any(kinds) else "obj"
+        raised = sorted(set((c.get("exc") or [0] * 99)[int(e.split(">")[0])] for e in out.split("|")[0].split(";")
+                            if e[:1].isdigit() and f"r{e.split('>')[0]}({e.split('>', 1)[1]})" in out)) if depth else []
+        exc = "noexc" if not raised else "boom" if raised == [0] else "exc%d" % (raised[-1] if len(raised) == 1 else 99)
+        ne = sum(1 for o in c["ops"] if o == "e")
+        long = "+long%d" % (8 if ne < 20 else 20) if any(c.get("dflt") or []) and ne >= 8 else ""
         return (f"pub{'+lt' if c.get('lt') else ''}:n{len(c['behs'])}:depth{min(depth, 5)}:{mut or 'plain'}:nest{min(nest, 4)}"
-                f"{'+after' if after else ''}:ops{''.join(sorted(set(o[0] for o in c['ops'])))}")
+                f"{'+after' if after else ''}:ops{''.join(sorted(set(o[0] for o in c['ops'])))}:{handed}:{exc}{long}")
     if c["op"] == "filter":
-        return "filter:" + ",".join(sorted(set(out.split(";"))))[:80] + ":" + "".join(c["preds"])
+        names = [s[1] if s[0] in "sq" else s[2] for s in c["steps"] if s[0] != "c"]
+        names = [n for n in names if n]
+        odd = "+odd" if any(ch.isspace() or ch.isupper() or ch in "*[]\\$^|()" for n in names for ch in n) else ""
+        deep = "+deep" if any(n.count(".") >= 9 for n in names) else ""
+        return ("filter:" + ",".join(sorted(set(out.split(";"))))[:80] + ":" + "".join(c["preds"]) + f":pk{c.get('pk', 0)}"
+                + odd + deep)
     size = c["size"]
     ne = c["steps"].count("e")
     cls = "N" if size is None else "neg" if size < 0 else "0" if size == 0 else ("lt" if ne < size else "eq" if ne == size else "gt")
     fed = "feed" if any(c.get("feed") or []) and "r" in c["steps"] else "nofeed"
-    return f"hist:{cls}:{'r' if 'r' in c['steps'] else 'nor'}:{fed}:{'!' if '!' in out else 'ok'}"
+    rep = "".join(ch for ch in "dcs" if ch in c["steps"])
+    return f"hist:{cls}:{'r' if 'r' in c['steps'] else 'nor'}:{fed}:{'!' if '!' in out else 'ok'}:{rep or 'plain'}"
